@@ -149,4 +149,36 @@ def wrap (width : Int) (indent s : Str) : Str :=
 /-- `wrap(string)` with the default arguments, as called by `Interpreter.newline`. -/
 def wrapDefault (s : Str) : Str := wrap 79 [' ', ' '] s
 
+/-! ### the `write$` buffer (pybtex/bibtex/interpreter.py:213-220)
+
+    def output(self, string):
+        self.output_buffer.append(string)
+
+    def newline(self):
+        output = wrap(u''.join(self.output_buffer))
+        self.output_lines.append(output)
+        self.output_lines.append(u'\n')
+        self.output_buffer = []
+
+The interpreter model (`Model/Interp.lean`, `runBuiltin … .write / .newline`) performs exactly
+these two steps on its `buffer` / `lines` components (`C19_engine_newline`). -/
+
+/-- `Interpreter.output(string)` on `output_buffer`. -/
+def outputStep (buffer : List Str) (x : Str) : List Str := buffer ++ [x]
+
+/-- `Interpreter.newline()` on `(output_lines, output_buffer)`. -/
+def newlineStep (lines buffer : List Str) : List Str × List Str :=
+  (lines ++ [wrapDefault buffer.flatten, ['\n']], [])
+
+/-- `(output_lines, output_buffer)` after, for every element of `ls` in turn, its pieces have
+been written (`write$`, one `output` call per piece) and `newline$` has been called. -/
+def engineSteps : List Str × List Str → List (List Str) → List Str × List Str
+  | st, [] => st
+  | (lines, buffer), pieces :: rest =>
+    engineSteps (newlineStep lines (pieces.foldl outputStep buffer)) rest
+
+/-- `''.join(output_lines)` — what `Interpreter.run` returns — for a program that writes the
+pieces of `ls[0]`, calls `newline$`, writes the pieces of `ls[1]`, calls `newline$`, … -/
+def engineOutput (ls : List (List Str)) : Str := (engineSteps ([], []) ls).1.flatten
+
 end Pybtex.Wrap
